@@ -475,10 +475,10 @@ pub fn oracle(c: &Case, probe: &mut Probe) -> Result<(), Fail> {
         rf == ef,
         "compose/random-stream-consumption",
         "after the run the generator has drawn {} words (next {:#x}); expected {} words (next {:#x}) - something other than the logged probes consumed randomness; spec {:?}",
-        rf.0,
-        rf.1,
-        ef.0,
-        ef.1,
+        rf.words,
+        rf.next,
+        ef.words,
+        ef.next,
         c.spec
     );
     match (&got, &expected) {
